@@ -18,7 +18,7 @@
 -/
 import XotModel.Lemmas.FinvReach2
 import XotModel.Lemmas.FinvStable
-import XotModel.Lemmas.FinvValue6
+import XotModel.Lemmas.FinvValue7
 import XotModel.Lemmas.FinvReads
 import XotModel.Lemmas.FinvPrefix
 
@@ -104,7 +104,6 @@ identity), and for every outcome of the call (`ok`, `err`, `panic`). -/
 
 /-- Node creation. -/
 theorem C04_newNode (f : Forest) (v : Value) (h : f.Inv) : (f.newNode v).1.Inv := Forest.newNode_inv h v
-
 theorem C04_newDocument (f : Forest) (h : f.Inv) : f.newDocument.1.Inv := Forest.newNode_inv h _
 theorem C04_newElement (f : Forest) (n : Nat) (h : f.Inv) : (f.newElement n).1.Inv := Forest.newNode_inv h _
 theorem C04_newText (f : Forest) (s : Str) (h : f.Inv) : (f.newText s).1.Inv := Forest.newNode_inv h _
@@ -119,7 +118,6 @@ theorem C04_newNamespaceNode (f : Forest) (p n : Nat) (h : f.Inv) :
 /-- The text-consolidation helpers of manipulation.rs keep the invariant for all arguments. -/
 theorem C04_removeConsolidate (f : Forest) (prev next : Option Nat) (h : f.Inv) :
     (f.removeConsolidate prev next).1.Inv := Forest.removeConsolidate_inv h prev next
-
 theorem C04_addConsolidate (f : Forest) (node : Nat) (prev next : Option Nat) (h : f.Inv) :
     (f.addConsolidate node prev next).1.Inv := Forest.addConsolidate_inv h node prev next
 
@@ -252,7 +250,6 @@ theorem C04_reach (ops : List Op) (hc : ∀ o ∈ ops, o.core = true) : (Forest.
 
 theorem C04_reach_bool (ops : List Op) (hc : ∀ o ∈ ops, o.core = true) : (Forest.init.run ops).inv = true :=
   (Forest.inv_iff _).mpr (C04_reach ops hc)
-
 /-- The same without the (now vacuous) side condition. -/
 theorem C04_step_all (f : Forest) (o : Op) (h : f.Inv) : (f.step o).Inv :=
   Forest.step_inv h o (by cases o <;> rfl)
@@ -306,13 +303,11 @@ theorem C04_replace (f : Forest) (a b : Nat) (h : f.Inv) : (f.replace a b).1.Inv
   Forest.replace_inv h a b
 
 theorem C04_replaceStatement_holds : C04_replaceStatement := fun f a b h => C04_replace f a b h
-
 /-- `element_wrap`: full statement (the gap case by evaluating its steps on the explicit forest). -/
 theorem C04_elementWrap (f : Forest) (node name : Nat) (h : f.Inv) : (f.elementWrap node name).1.Inv :=
   Forest.elementWrap_inv h node name
 
 theorem C04_elementWrapStatement_holds : C04_elementWrapStatement := fun f n name h => C04_elementWrap f n name h
-
 /-- The guard is vacuous once consolidation has ever been off. -/
 theorem C04_textGap_off (f : Forest) (a : Nat) (h : f.everOff = true) : f.textGap a = false := by
   unfold Forest.textGap; cases f.ctx? a <;> simp [h]
@@ -323,7 +318,6 @@ theorem C04_elementUnwrap (f : Forest) (node : Nat) (h : f.Inv) : (f.elementUnwr
   Forest.elementUnwrap_inv h node
 
 theorem C04_elementUnwrapStatement_holds : C04_elementUnwrapStatement := fun f n h => C04_elementUnwrap f n h
-
 /-- The replay loop of `clone_node` (`new_node` + `any_append` per source node) preserves the
     invariant; `clone_node` of a document or of a leaf node does; for an element the state before
     the final indextree `remove` of the temporary top does. -/
@@ -353,7 +347,6 @@ theorem C04_cloneNode (f : Forest) (node : Nat) (h : f.Inv) : (f.cloneNode node)
   Forest.cloneNode_inv h node
 
 theorem C04_cloneNodeStatement_holds : C04_cloneNodeStatement := fun f n h => C04_cloneNode f n h
-
 /-- Non-vacuity: a strict forest with a gap (`<a>x<b/>y</a>`, `b` between two texts) and one
     without; the gap case is not empty. -/
 def gapForest : Forest := { roots := [.node 0 (.element 1) [.node 1 (.text ['x']) [], .node 2 (.element 2) [], .node 3 (.text ['y']) []], .node 4 (.text ['z']) [], .node 5 (.element 3) []], next := 6 }
@@ -482,9 +475,16 @@ theorem C04_value_exact_remove (f : Forest) (hi : f.Inv) (n x : Nat) (v v' : Val
     (hv : f.value? x = some v) (hv' : (f.remove n).1.value? x = some v')
     (hx : f.prevSibling n ≠ some x) : v' = v := Forest.remove_value_exact hi n hv hv' hx
 
-/-- Inside a moved subtree every node other than its root keeps its value exactly, text nodes
-    too.  (The root `c` itself, when it is a text node arriving next to a text node, is merged away:
-    it is then removed; otherwise `C04_value_call` applies to it.) -/
+/-- The root `c` of a moved subtree, if still live after the move, has exactly its old value: a
+    text node arriving next to a text node is merged into it and removed (the earlier node, or the
+    node already there, survives), otherwise nothing writes to the moved node. -/
+theorem C04_value_moved_root (f : Forest) (hi : f.Inv) (a c : Nat) (v v' : Value) (hv : f.value? c = some v) :
+    ((f.append a c).1.value? c = some v' → v' = v) ∧ ((f.prepend a c).1.value? c = some v' → v' = v) ∧
+    ((f.insertAfter a c).1.value? c = some v' → v' = v) ∧
+    ((f.insertBefore a c).1.value? c = some v' → v' = v) :=
+  ⟨Forest.append_root_exact hi a c hv, Forest.prepend_root_exact hi a c hv,
+   Forest.insertAfter_root_exact hi a c hv, Forest.insertBefore_root_exact hi a c hv⟩
+/-- Inside a moved subtree every other node keeps its value exactly, text nodes too. -/
 theorem C04_value_moved_append (f : Forest) (hi : f.Inv) (p c x : Nat) (tc : HTree) (v v' : Value)
     (hg : f.get? c = some tc) (hx : x ∈ HTree.handles tc) (hxc : x ≠ c)
     (hv : f.value? x = some v) (hv' : (f.append p c).1.value? x = some v') : v' = v :=
